@@ -12,4 +12,36 @@ open Fxp
 def c01 (f : Fmt) (r : Rounding) (o : Overflow) (v : Rat) (c : Int) (x : Rat) : Bool :=
   decide (c = quantize f r o v) && decide (x = valueOf f c)
 
+def absR (x : Rat) : Rat := if x < 0 then -x else x
+
+/-- C03: the stored code is in range and congruent to the rounded input `k` modulo `2^n_word`. -/
+def c03 (f : Fmt) (k c : Int) : Bool :=
+  decide (f.lo ≤ c ∧ c ≤ f.hi) && decide ((c - k) % (2 ^ f.nword) = 0)
+
+/-- C05: directional contract of each rounding mode, `x` the exact scaled input, `q` the observed code. -/
+def c05round (r : Rounding) (x : Rat) (q : Int) : Bool :=
+  match r with
+  | .floor  => decide ((q:Rat) ≤ x ∧ x < (q:Rat) + 1)
+  | .ceil   => decide ((q:Rat) - 1 < x ∧ x ≤ (q:Rat))
+  | .trunc  => decide ((0 ≤ x → (q:Rat) ≤ x ∧ x < (q:Rat) + 1) ∧ (x < 0 → (q:Rat) - 1 < x ∧ x ≤ (q:Rat)))
+  | .fix    => decide ((0 ≤ x → (q:Rat) ≤ x ∧ x < (q:Rat) + 1) ∧ (x < 0 → (q:Rat) - 1 < x ∧ x ≤ (q:Rat)))
+  | .around => decide (absR ((q:Rat) - x) ≤ 1/2 ∧ (absR ((q:Rat) - x) = 1/2 → q % 2 = 0))
+
+/-- C05: error strictly below one LSB (in scaled units: below 1). -/
+def c05err (x : Rat) (q : Int) : Bool := decide (absR ((q:Rat) - x) < 1)
+
+/-- C05: a non-overflowing input (exact scaled value inside `[lo, hi]`) must be stored in range, on the
+right side, within one LSB. Inputs that overflow are not constrained by C05. -/
+def c05 (f : Fmt) (r : Rounding) (v : Rat) (c : Int) : Bool :=
+  let x := scale v f.nfrac
+  if (f.lo : Rat) ≤ x ∧ x ≤ (f.hi : Rat) then
+    decide (f.lo ≤ c ∧ c ≤ f.hi) && c05round r x c && c05err x c
+  else true
+
+/-- C05 monotonicity: the observed codes of a non-decreasing input list are non-decreasing. -/
+def sortedInt : List Int → Bool
+  | [] => true
+  | [_] => true
+  | a :: b :: t => decide (a ≤ b) && sortedInt (b :: t)
+
 end Fxp.Chk
